@@ -67,7 +67,7 @@ def make_table(truth, rng, ph, forced=None):
             else:                    # pH >= pKa
                 pka = {"random": ph - rng.uniform(0.01, 6), "equal": ph, "eps": ph - 1e-9}[rel]
             lab = label(g if g in ("N+", "C-") else t["resn"], t["resi"], t["chain"])
-            rows.append({"res_num": t["resi"], "ins_code": " ", "res_name": t["resn"], "chain_id": t["chain"],
+            rows.append({"res_num": t["resi"], "ins_code": t.get("icode") or " ", "res_name": t["resn"], "chain_id": t["chain"],
                          "group_label": lab, "group_type": None, "pKa": pka, "model_pKa": pka, "buried": 0.0,
                          "coupled_group": None})
             groups.append({"group": g, "k": k, "side": side, "rel": rel, "pka": pka})
